@@ -494,7 +494,7 @@ def run(ctx: Ctx) -> int:
             judge_row(ctx, rec, toks, "written+mutated", stats)
 
     # ---- update: the staged fault model
-    r = tlc("update", classes, coverage=not ctx.quick)
+    r = tlc("update", classes, coverage=True)
     if r.coverage:
         ctx.extra["action_coverage"] = {a: c for a, c in r.coverage.items() if a in
                                         ("Rsplit", "Fetch", "Payload", "Inflate", "Decode", "Lines")}
